@@ -170,3 +170,220 @@ Example C08_example_brackets :
                  (pp example_tree)) = 4
   /\ parse_expr (pp example_tree) = Some (erase example_tree).
 Proof. split; vm_compute; reflexivity. Qed.
+
+(* ================================================================================== *)
+(* STATEMENT LEVEL.  The printer emits tokens WITH line structure; the parser side is the FULL
+   parser model Model/Parser.v [Parser.parse] (ParseWithRuntime with the look-ahead ring, the
+   guard flag, token lines — the model C07's correspondence ties to the real parser), not the
+   expression-only reader of Model/Printer.v.
+
+   Covered statement kinds (guard [wfS] of Spec/StmtFormatSpec.v):
+     statement sequences at top level and in blocks (one statement per line), expression
+     statements incl. assignments `:=`, `let`, `break`, `continue`; `return` bare and with a
+     value; `if` / `elif` / `else`; `for` in the condition and the `in` form; `mutex`.
+   In the syntax and the printer, but NOT in the theorem (correspondence only): try / except /
+   otherwise / finally, func, import, sink, function calls / access chains, list and map
+   literals.
+   Guards ([wfP], [wfS], [wfe]): expression leaves as in the expression theorems (no `times`
+   over a right `div`, raw strings printable raw) and no EOF terminal; a final `elif true` is
+   written as `else` (same tree); the program does not end in a bare `return` (such a text does
+   not parse).  The printer model is the printer after repair C08-5: a statement that is not the
+   first of its block and starts with + - or "(" is printed with a leading ";" (without it the
+   round trip fails: C08_stmt_start_operator_refuted about the printer before that repair). *)
+From Ecal Require Import Model.StmtPrinter Spec.StmtFormatSpec Proofs.StmtState Proofs.StmtExpr Proofs.StmtProofs
+     Proofs.StmtKey Proofs.StmtNoEof Proofs.StmtTop Proofs.StmtPrinterEq Proofs.StmtFinal.
+
+From Coq Require Import ZArith.
+Definition parse_tokens (ts : list Parser.tok) : option node := parsed (Parser.parse ts).
+
+(* parse (print p) = p up to positions, for every layout start line and every position of EOF *)
+Theorem C08_stmt_print_parse_roundtrip_partial :
+  forall b, wfP b -> StmtRoundTrip parse_tokens b.
+Proof. exact prog_roundtrip. Qed.
+Print Assumptions C08_stmt_print_parse_roundtrip_partial.
+
+(* the statement printer IS the correspondence-checked printer model on the embedded tree ... *)
+Theorem C08_stmt_printer_is_model :
+  forall b, wfP b -> pp (embed_prog b) = pp_prog b.
+Proof. exact prog_printer_eq. Qed.
+Print Assumptions C08_stmt_printer_is_model.
+
+(* ... so the round trip holds for the model printer [pp] run on the AST itself *)
+Theorem C08_stmt_print_parse_roundtrip :
+  forall b, wfP b -> forall l0 le epos,
+  exists t', parse_tokens (source_tokens l0 le epos (pp (embed_prog b))) = Some t' /\ strip t' = embed_prog b.
+Proof. exact prog_roundtrip_pp. Qed.
+Print Assumptions C08_stmt_print_parse_roundtrip.
+
+(* print (parse (print p)) = print p *)
+Theorem C08_stmt_print_idempotent :
+  forall b, wfP b -> StmtIdempotent parse_tokens b.
+Proof. exact prog_idempotent. Qed.
+Print Assumptions C08_stmt_print_idempotent.
+
+(* the printer model never looks at token positions *)
+Theorem C08_print_ignores_positions : forall t, pp (strip t) = pp t.
+Proof. exact pp_strip. Qed.
+Print Assumptions C08_print_ignores_positions.
+
+(* key lemma, statements: in front of ANY continuation token that separates ([sepT]: on a
+   later line or binding nothing, no left denotation, not "(" "." elif else) the printed
+   statement is read by parser.run(0) as the statement, and the parser stands on that token *)
+Theorem C08_stmt_print_parse_in_context :
+  forall s, wfS s -> forall f ln tc k,
+    sepT ln tc -> (s = SReturn0 -> ln < Parser.t_line tc) ->
+    length (lay ln (pp_stmt s)) + length k <= f ->
+    exists i tr,
+      Parser.run Parser.repaired (S f) 0 (pos false (lay ln (pp_stmt s) ++ tc :: k))
+      = Parser.ROk (i, tr) (st (Some (cn false tc)) k false)
+      /\ strip tr = embed s /\ n_line tr = ln.
+Proof. exact (proj1 stmt_key). Qed.
+Print Assumptions C08_stmt_print_parse_in_context.
+
+(* key lemma, expressions, against the FULL parser model (C08_print_parse_in_context re-proved
+   for Parser.run / run_body / null_den / ld_loop, any guard flag, tokens on line ln) *)
+Theorem C08_expr_print_parse_full_parser :
+  forall t, wfe t -> KeyP t.
+Proof. exact keyP. Qed.
+Print Assumptions C08_expr_print_parse_full_parser.
+
+(* ---------------------------------------------------------------------------------- *)
+(* Refutations at statement level (vm_compute on the full parser model) *)
+
+Definition sdiffers (b : sblock) : bool :=
+  match parse_tokens (source_tokens 1 9 0%Z (pp_prog b)) with
+  | Some t' => negb (node_eqb t' (embed_prog b))
+  | None => true
+  end.
+Definition ndiffers (t : node) : bool :=
+  match parse_tokens (source_tokens 1 9 0%Z (pp t)) with
+  | Some t' => negb (node_eqb t' t)
+  | None => true
+  end.
+
+(* Finding statement-start-operator, repaired by C08-5: under the printer WITHOUT the statement
+   separator ([pp_nosemi]: one statement per line, nothing else) `a; -b` is printed as the two
+   lines a / -b, which parse as ONE statement a - b; `a; (b + c) * d` is printed a / (b + c) * d,
+   which parses as the call a(b + c) * d; `if a { b }; -c` parses as (if ...) - c.  With the
+   separator ([pp]) all of them are read back unchanged. *)
+Definition pdiffers (p : node -> list item) (b : sblock) : bool :=
+  match parse_tokens (source_tokens 1 9 0%Z (p (embed_prog b))) with
+  | Some t' => negb (node_eqb t' (embed_prog b))
+  | None => true
+  end.
+Definition start_witnesses : list sblock :=
+  [BCons (SExpr (ident 97%N)) (BCons (SExpr (pre "minus" (ident 98%N))) BNil);
+   BCons (SExpr (ident 97%N)) (BCons (SExpr (pre "plus" (ident 98%N))) BNil);
+   BCons (SExpr (ident 97%N))
+     (BCons (SExpr (bin "times" (bin "plus" (ident 98%N) (ident 99%N)) (ident 100%N))) BNil);
+   BCons (SIf (ident 97%N) (BCons (SExpr (ident 98%N)) BNil) INone) (BCons (SExpr (pre "minus" (ident 99%N))) BNil);
+   BCons (SFor (ident 97%N) (BCons (SExpr (ident 98%N)) (BCons (SExpr (pre "minus" (ident 99%N))) BNil))) BNil].
+Theorem C08_stmt_start_operator_refuted :
+  forallb (pdiffers pp_nosemi) start_witnesses = true /\
+  existsb (pdiffers pp) start_witnesses = false /\
+  existsb sdiffers start_witnesses = false.
+Proof. repeat split; vm_compute; reflexivity. Qed.
+Print Assumptions C08_stmt_start_operator_refuted.
+
+(* Known finding return-left-operand: the tree minus(return, a) (from "return<newline>-a") is
+   printed `return - a`, which parses as return(-a).  A bare return is a statement in [stmt],
+   never an operand, so the guard excludes the shape. *)
+Theorem C08_return_left_operand_refuted :
+  ndiffers (Nd "minus" [] 0 0 [Nd "return" [] 0 0 []; Nd "identifier" [97%N] 1 0 []]) = true.
+Proof. vm_compute. reflexivity. Qed.
+Print Assumptions C08_return_left_operand_refuted.
+
+(* ---------------------------------------------------------------------------------- *)
+(* Non-vacuity *)
+
+Definition e_id (c : N) : node := ident c.
+Lemma wfe_id c : wfe (e_id c).
+Proof. apply (WeAtom TokenIDENTIFIER); [reflexivity | discriminate | discriminate]. Qed.
+Lemma wfe_num c : wfe (num c).
+Proof. apply (WeAtom TokenNUMBER); [reflexivity | discriminate | discriminate]. Qed.
+Lemma wfe_bin id l r : is_infix id = true -> exempt_at id r = false -> wfe l -> wfe r -> wfe (Node (name_of id) [] false false 1 [l; r]).
+Proof. intros. apply (WeBin id); assumption. Qed.
+
+(* for a in b { if a > 1 { x := a + 1 \n continue } elif a == 0 { break } else { mutex m { return a } } \n return }
+   followed by a second top-level statement *)
+Definition example_prog : sblock :=
+  BCons (SFor (bin "in" (e_id 97) (e_id 98))
+          (BCons (SIf (bin ">" (e_id 97) (num 49))
+                      (BCons (SExpr (bin ":=" (e_id 120) (bin "plus" (e_id 97) (num 49))))
+                        (BCons (SExpr (Nd "continue" [] 0 1 [])) BNil))
+                      (IElif (bin "==" (e_id 97) (num 48))
+                             (BCons (SExpr (Nd "break" [] 0 1 [])) BNil)
+                             (IElse (BCons (SMutex [109%N] (BCons (SReturn1 (e_id 97)) BNil)) BNil))))
+            (BCons SReturn0 BNil)))
+    (BCons (SExpr (bin ":=" (e_id 121) (num 50))) BNil).
+
+Example C08_stmt_example_in_domain : wfP example_prog.
+Proof.
+  unfold wfP, example_prog. split; [discriminate|]. split; [|vm_compute; reflexivity].
+  cbn [wfB wfS wfT]. unfold bin, Nd. cbn [Nat.odd Nat.leb].
+  repeat match goal with
+  | |- _ /\ _ => split
+  | |- True => exact I
+  | |- wfe (e_id _) => apply wfe_id
+  | |- wfe (num _) => apply wfe_num
+  | |- wfe (Node "in" _ _ _ _ [_; _]) => apply (wfe_bin TokenIN); [reflexivity | reflexivity | |]
+  | |- wfe (Node ">" _ _ _ _ [_; _]) => apply (wfe_bin TokenGT); [reflexivity | reflexivity | |]
+  | |- wfe (Node "==" _ _ _ _ [_; _]) => apply (wfe_bin TokenEQ); [reflexivity | reflexivity | |]
+  | |- wfe (Node ":=" _ _ _ _ [_; _]) => apply (wfe_bin TokenASSIGN); [reflexivity | reflexivity | |]
+  | |- wfe (Node "plus" _ _ _ _ [_; _]) => apply (wfe_bin TokenPLUS); [reflexivity | reflexivity | |]
+  | |- wfe (Node "continue" _ _ _ _ []) => apply (WeAtom TokenCONTINUE); [reflexivity | discriminate | discriminate]
+  | |- wfe (Node "break" _ _ _ _ []) => apply (WeAtom TokenBREAK); [reflexivity | discriminate | discriminate]
+  end.
+Qed.
+
+(* the example through the full parser model: same tree, 15 line breaks, idempotent *)
+Example C08_stmt_example_roundtrip :
+  sdiffers example_prog = false /\
+  nls (pp_prog example_prog) = 15 /\
+  pp (embed_prog example_prog) = pp_prog example_prog.
+Proof. repeat split; vm_compute; reflexivity. Qed.
+
+(* statements that need the separator are in the domain: a / ;-b / ;(b + c) * d / ;+a *)
+Definition example_semi : sblock :=
+  BCons (SExpr (e_id 97))
+    (BCons (SExpr (pre "minus" (e_id 98)))
+      (BCons (SExpr (bin "times" (bin "plus" (e_id 98) (e_id 99)) (e_id 100)))
+        (BCons (SExpr (pre "plus" (e_id 97))) BNil))).
+Example C08_stmt_example_semi :
+  wfP example_semi /\ sdiffers example_semi = false /\
+  length (filter (fun x => match x with T id _ _ => Nat.eqb id TokenSEMICOLON | NL => false end) (pp_prog example_semi)) = 3.
+Proof.
+  split; [|split; vm_compute; reflexivity].
+  unfold wfP, example_semi. split; [discriminate|]. split; [|vm_compute; reflexivity].
+  cbn [wfB wfS]. unfold bin, pre, Nd. cbn [Nat.odd Nat.leb].
+  repeat match goal with
+  | |- _ /\ _ => split
+  | |- True => exact I
+  | |- wfe (e_id _) => apply wfe_id
+  | |- wfe (Node "times" _ _ _ _ [_; _]) => apply (wfe_bin TokenTIMES); [reflexivity | reflexivity | |]
+  | |- wfe (Node "plus" _ _ _ _ [_; _]) => apply (wfe_bin TokenPLUS); [reflexivity | reflexivity | |]
+  | |- wfe (Node "minus" _ _ _ _ [_]) => apply (WePre TokenMINUS); [reflexivity | reflexivity |]
+  | |- wfe (Node "plus" _ _ _ _ [_]) => apply (WePre TokenPLUS); [reflexivity | reflexivity |]
+  end.
+Qed.
+
+(* beyond the theorem, by computation: a function containing an if / else inside a for loop
+   with a try / except / finally — printed by the statement printer (= the model printer) and
+   re-parsed by the full parser model to the same tree *)
+Definition example_func : sblock :=
+  BCons (SFunc [102%N] [e_id 97; bin "preset" (e_id 98) (num 49)]
+          (BCons (SFor (bin "<" (e_id 97) (e_id 98))
+                   (BCons (STry (BCons (SIf (bin "==" (e_id 97) (num 48))
+                                            (BCons (SReturn1 (e_id 98)) BNil)
+                                            (IElse (BCons (SExpr (bin ":=" (e_id 97) (bin "plus" (e_id 97) (num 49)))) BNil)))
+                                  BNil)
+                                (ECons [([101%N], true)] (EBAs [120%N]) (BCons (SExpr (Nd "break" [] 0 1 [])) BNil) ENil)
+                                ONone
+                                (OSome (BCons (SExpr (e_id 99)) BNil)))
+                     BNil))
+            BNil))
+    BNil.
+
+Example C08_stmt_example_func :
+  sdiffers example_func = false /\ pp (embed_prog example_func) = pp_prog example_func.
+Proof. split; vm_compute; reflexivity. Qed.
